@@ -221,4 +221,8 @@ static int extra_modes(const WorkerOpts &o, Stats &stats) {
   return 0;
 }
 
-int main(int argc, char **argv) { return vf_main<Case>(argc, argv, "C11", gen_case, run_case, extra_modes); }
+int main(int argc, char **argv) {
+  g_history_enabled = true;  // process-history modes (harness/vf.h): prelude first / the case body twice in one process
+  g_prelude_fn = table_prelude;
+  return vf_main<Case>(argc, argv, "C11", gen_case, run_case, extra_modes);
+}
